@@ -1024,7 +1024,7 @@ def ctapi_gen(tier, shard, nshards):
     i = 0
     cases = []
     for a in _ct_attrs():
-        for base in ("raw", "int", "list", "prop", "delegate"):
+        for base in ("raw", "int", "list", "prop", "delegate", "vprop"):
             cases.append({"what": "del", "attr": a, "base": base})
             for vi in range(len(WEIRD)):
                 cases.append({"what": "set", "attr": a, "base": base, "val": vi})
@@ -1070,6 +1070,9 @@ def _ct_make(base):
         return List(Int).as_ctrait()
     if base == "prop":
         return T.Property(lambda self: 1, lambda self, v: None).as_ctrait()
+    if base == "vprop":
+        # a Property WITH a validating trait (its assignment path calls validate, then post_setattr = the user's setter)
+        return T.Property(lambda self: 1, lambda self, v: None, trait=Int).as_ctrait()
     return DelegatesTo("peer").as_ctrait()
 
 
